@@ -326,10 +326,10 @@ impl DependencyProvider for SimProvider {
         // Like a real provider, the ranking policy is looked up once per call, for the package of the slice it is given
         // (the trait hands over the candidates of one package): solvables of another package are not ranked by it.
         let w = &self.core.world;
-        if let Some(first) = solvables.first().copied() {
-            let name = w.solvable_name(first.0);
-            let rank = &w.packages[&name].rank;
-            solvables.sort_by_key(|s| rank.iter().position(|x| *x == s.0).unwrap_or(usize::MAX));
+        let mut ids: Vec<u32> = solvables.iter().map(|s| s.0).collect();
+        w.sort_by_rank(&mut ids);
+        for (slot, id) in solvables.iter_mut().zip(ids) {
+            *slot = SolvableId(id);
         }
         guard.deliver();
     }
